@@ -185,6 +185,10 @@ def gen_build(tier, seed, todfs=False):
                 elif v < 0.4:
                     items = items + [items[0]]
                     stats["dimfile_bad"] += 1
+            if dt == "s" and r.random() < 0.2 and len(items) >= 2:
+                # an item spelled like the dimension itself (dimension "good" with an item "good"), not in first place
+                items = list(items)
+                items.insert(r.randint(1, len(items)), name)
             header = r.random() < 0.4
             cells = ([name] if header else []) + items
             if r.random() < 0.08:
